@@ -4,7 +4,7 @@
    Types: 0 bool, 1 char, 2 int, 3 unsigned, 4 long, 5 unsigned long, 6 long long, 7 unsigned long long, 8.. enums (LP64). *)
 Require Import V.Lib.Base V.Lib.Dec V.Gen.Consts_C16.
 Require Import V.C16.Model V.C16.Spec V.C16.ProofsBasic V.C16.ProofsRT V.C16.ProofsAcc V.C16.ProofsEnum V.C16.ProofsComp.
-Require Import V.C16.ProofsCompElems V.C16.ProofsCompAcc.
+Require Import V.C16.ProofsCompElems V.C16.ProofsCompAcc V.C16.ProofsAppend.
 Local Open Scope Z_scope.
 
 (* ================= (1) round trip, ALL values of every integer type ================= *)
@@ -335,3 +335,73 @@ Proof.
 Qed.
 Example c16_smoke : run_case [0; 2; 0; 3; 32; 45; 53] = [1; -5; 3; 0; 1; -5].
 Proof. vm_compute. reflexivity. Qed.
+
+(* ================= (7) lists written into NON-EMPTY accumulators ================= *)
+(* xconvert(std::string& accu, IT begin, IT end, char sep) (Model.v append_seq: a separator in front of every element but the first of THIS call)
+   appends exactly the rendering of the list - for EVERY accumulator content, every separator, every element type and list (also the empty list and
+   elements that print as ""): nothing depends on what accu already holds.  xconvert(std::string&, const std::vector<T>&) is the instance sep = ','. *)
+Theorem c16_list_append : forall ty sep accu l, xconv_range ty sep accu l = accu ++ join sep (map (print_scalar ty) l).
+Proof. exact range_spec. Qed.
+Print Assumptions c16_list_append.
+Theorem c16_list_append_default : forall ty accu l, xconv_list ty accu l = accu ++ print_list ty l.
+Proof. exact list_spec. Qed.
+Print Assumptions c16_list_append_default.
+
+(* ... and the appended part reads back as the list, whatever the accumulator holds and whatever errno state the reader starts in
+   (same exclusions as c16_list_roundtrip_all: empty list, char NUL, char '[' as first element) *)
+Theorem c16_list_append_roundtrip : forall ty accu l e, l <> [] -> Forall (elem_ok_all ty) l -> ~ (ty = 1 /\ hd 0 l = seq_open) ->
+  cast_list ty e (cut0 (skipn (length accu) (xconv_list ty accu l))) = (true, l).
+Proof. exact append_roundtrip_all. Qed.
+Print Assumptions c16_list_append_roundtrip.
+Theorem c16_list_append_roundtrip_generic : forall ty accu l e, l <> [] -> Forall (rt_ok ty) l -> Forall (cstr_el ty) l ->
+  hd 0 (print_scalar ty (hd 0 l)) <> seq_open ->
+  cast_list ty e (cut0 (skipn (length accu) (xconv_list ty accu l))) = (true, l).
+Proof. exact append_roundtrip. Qed.
+Print Assumptions c16_list_append_roundtrip_generic.
+
+(* toString(a, list) = text(a) "," text(list): a NUL-free C string; xconvert reads a from its start and stops at the ',', and string_cast of
+   what follows the ',' (in the errno state the first conversion left) returns the list.  toString(a, b, list) likewise, component by component. *)
+Theorem c16_tostring2_roundtrip : forall ta a ty l, elem_ok_all ta a -> l <> [] -> Forall (elem_ok_all ty) l -> ~ (ty = 1 /\ hd 0 l = seq_open) ->
+  let s := tostring2 ta a ty l in
+  s = print_scalar ta a ++ comma :: print_list ty l /\ cut0 s = s /\
+  exists e1, parse_scalar ta false s = mkp true a (length (print_scalar ta a)) e1 /\
+             skipn (length (print_scalar ta a)) s = comma :: print_list ty l /\
+             cast_list ty e1 (print_list ty l) = (true, l).
+Proof. exact tostring2_roundtrip_all. Qed.
+Print Assumptions c16_tostring2_roundtrip.
+Theorem c16_tostring3_roundtrip : forall ta a tb b ty l, elem_ok_all ta a -> elem_ok_all tb b ->
+  l <> [] -> Forall (elem_ok_all ty) l -> ~ (ty = 1 /\ hd 0 l = seq_open) ->
+  let s := tostring3 ta a tb b ty l in
+  let s2 := print_scalar tb b ++ comma :: print_list ty l in
+  s = print_scalar ta a ++ comma :: s2 /\ cut0 s = s /\
+  exists e1 e2, parse_scalar ta false s = mkp true a (length (print_scalar ta a)) e1 /\
+                parse_scalar tb e1 s2 = mkp true b (length (print_scalar tb b)) e2 /\
+                cast_list ty e2 (print_list ty l) = (true, l).
+Proof. exact tostring3_roundtrip_all. Qed.
+Print Assumptions c16_tostring3_roundtrip.
+
+(* the reader with an explicit separator (harness op 8 2) is, for the default separator, the reader of all theorems above *)
+Theorem c16_parse_list_default_sep : forall ty e x, parse_list_s def_sep ty e x = parse_list ty e x.
+Proof. exact parse_list_s_def. Qed.
+Print Assumptions c16_parse_list_default_sep.
+
+(* non-vacuity: toString(3, vector<int>{1,2}) = "3,1,2"; vector<Value_t>{Free,True} appended to "x;" gives "x;Free,True"; the same list with
+   separator ';' appended to a bracket; an empty list and a one-element list appended to a non-empty accumulator; the hypotheses hold *)
+Example nv_append :
+  tostring2 2 3 2 [1; 2] = [51; 44; 49; 44; 50] /\
+  tostring3 0 1 7 18446744073709551615 2 [-1] = [116; 114; 117; 101; 44; 117; 109; 97; 120; 44; 45; 49] /\
+  xconv_list 10 [120; 59] [0; 1] = [120; 59; 70; 114; 101; 101; 44; 84; 114; 117; 101] /\
+  xconv_range 2 59 [91] [7; 8; 9] = [91; 55; 59; 56; 59; 57] /\
+  xconv_list 2 [120] [] = [120] /\ xconv_list 2 [120] [5] = [120; 53] /\
+  cast_list 2 true (cut0 (skipn 2 (xconv_list 2 [120; 44] [1; 2]))) = (true, [1; 2]).
+Proof.
+  split; [vm_compute; reflexivity|]. split; [vm_compute; reflexivity|]. split; [vm_compute; reflexivity|].
+  split; [vm_compute; reflexivity|]. split; [vm_compute; reflexivity|]. split; [vm_compute; reflexivity|]. vm_compute; reflexivity.
+Qed.
+Example nv_append_hyps : elem_ok_all 2 3 /\ Forall (elem_ok_all 2) [1; 2] /\ ~ (2 = 1 /\ hd 0 [1; 2] = seq_open) /\ [1; 2] <> [].
+Proof.
+  assert (E : forall v, -5 <= v <= 5 -> elem_ok_all 2 v).
+  { intros v Hv. left. left. split; [unfold int_ty; lia|]. change (ty_min 2) with c_INT_MIN. change (ty_max 2) with c_INT_MAX.
+    unfold c_INT_MIN, c_INT_MAX. lia. }
+  split; [apply E; lia|]. split; [constructor; [apply E; lia|]; constructor; [apply E; lia | constructor]|]. split; [intros [H _]; discriminate H | discriminate].
+Qed.
